@@ -1,1 +1,309 @@
-// placeholder
+//! C05/C06/C17 reference: reassembly monitor (a function of the history) and the history predicate
+//! (the C06 sentence itself, sharing no code with the monitor).
+use super::line::{recognise, Parsed};
+use super::msg::{self, Status};
+use super::unarmor::unarmor_ref;
+
+pub const NOALLOC_SENTENCE_CAP: usize = 384;
+
+/// How a validly shaped, checksum-correct sentence is numbered.
+#[derive(Clone, Copy, Debug, PartialEq, Eq)]
+pub enum Kind {
+    /// n = 1, k = 1
+    Unfrag,
+    /// n >= 2, k = 1
+    First,
+    /// n >= 2, 2 <= k < n
+    Cont,
+    /// n >= 2, k = n
+    Last,
+    /// k = 0, k > n, n = 0: outside the statements of C05/C06
+    Invalid,
+}
+
+pub fn kind_of(n: u8, k: u8) -> Kind {
+    if n == 0 || k == 0 || k > n {
+        Kind::Invalid
+    } else if n == 1 {
+        Kind::Unfrag
+    } else if k == 1 {
+        Kind::First
+    } else if k < n {
+        Kind::Cont
+    } else {
+        Kind::Last
+    }
+}
+
+#[derive(Clone, Debug, PartialEq, Eq, Hash)]
+pub enum MState {
+    Closed,
+    Open {
+        id: Option<u8>,
+        last_k: u8,
+        payload: Vec<u8>,
+    },
+    /// no-allocator build only: the open group overflowed the fixed buffer; nothing may be delivered
+    /// before the next fragment 1
+    Poisoned,
+    /// after an accepted, invalidly numbered sentence: not judged until the next fragment 1
+    Unknown,
+}
+
+/// What the decoding step must produce for a delivered payload.
+#[derive(Clone, Debug, PartialEq, Eq)]
+pub enum DecodeExp {
+    NotRequested,
+    MustFail,
+    MustSucceed,
+    Either,
+}
+
+pub fn decode_exp(payload: &[u8], fill: u8, decode: bool, noalloc: bool) -> DecodeExp {
+    if !decode {
+        return DecodeExp::NotRequested;
+    }
+    match unarmor_ref(payload, fill as usize) {
+        None => DecodeExp::MustFail,
+        Some(bytes) => {
+            if noalloc && bytes.len() > NOALLOC_SENTENCE_CAP {
+                return DecodeExp::Either;
+            }
+            let e = msg::expect(&bytes);
+            match e.status {
+                Status::MustErr(_) => DecodeExp::MustFail,
+                Status::MustOk if noalloc && e.noalloc_may_err => DecodeExp::Either,
+                Status::MustOk => DecodeExp::MustSucceed,
+                Status::Either(_) => DecodeExp::Either,
+            }
+        }
+    }
+}
+
+#[derive(Clone, Debug, PartialEq, Eq)]
+pub enum Expect {
+    /// the line does not have the sentence shape: `Err`, never a checksum error, no trace
+    RejectForm,
+    /// shape valid, checksum wrong: `Err(Checksum{expected = transmitted, found = computed})`, no trace
+    RejectChecksum { transmitted: u8, computed: u8 },
+    /// `Complete(own payload)`, no trace (whether or not the payload decodes)
+    Unfrag { decode: DecodeExp },
+    /// `Incomplete(own fields)`
+    Incomplete,
+    /// `Complete(payload)`; an `Err` from decoding is the only permitted alternative
+    Deliver { payload: Vec<u8>, decode: DecodeExp },
+    /// continuation that does not continue the open group: `Err`, no trace
+    RejectSequence,
+    /// no-allocator capacity exceeded: `Err` required
+    RejectCapacity,
+    /// not judged (invalid numbering, '*' embedded in a field, poisoned/unknown monitor state)
+    Unjudged(&'static str),
+}
+
+/// One monitor step. Returns the expectation and the next monitor state.
+pub fn step(st: &MState, line: &[u8], decode: bool, noalloc: bool) -> (Expect, MState) {
+    let p: Parsed = match recognise(line) {
+        None => return (Expect::RejectForm, st.clone()),
+        Some(p) => p,
+    };
+    if noalloc && p.payload.len() > NOALLOC_SENTENCE_CAP {
+        return (Expect::RejectCapacity, st.clone());
+    }
+    if p.embedded_star {
+        // U1: which value "the checksum" is, is ambiguous; the line may be accepted or rejected
+        return (Expect::Unjudged("U1: '*' inside a field"), MState::Unknown);
+    }
+    if !p.checksum_ok() {
+        return (
+            Expect::RejectChecksum {
+                transmitted: p.transmitted,
+                computed: p.xor,
+            },
+            st.clone(),
+        );
+    }
+    match kind_of(p.n, p.k) {
+        Kind::Unfrag => (
+            Expect::Unfrag {
+                decode: decode_exp(p.payload, p.fill, decode, noalloc),
+            },
+            st.clone(),
+        ),
+        Kind::Invalid => (Expect::Unjudged("invalid fragment numbering"), MState::Unknown),
+        Kind::First => (
+            Expect::Incomplete,
+            MState::Open {
+                id: p.id,
+                last_k: 1,
+                payload: p.payload.to_vec(),
+            },
+        ),
+        Kind::Cont | Kind::Last => {
+            let is_last = p.k == p.n;
+            match st {
+                MState::Open { id, last_k, payload }
+                    if *id == p.id && *last_k as u16 + 1 == p.k as u16 =>
+                {
+                    let mut whole = payload.clone();
+                    whole.extend_from_slice(p.payload);
+                    if noalloc && whole.len() > NOALLOC_SENTENCE_CAP {
+                        return (Expect::RejectCapacity, MState::Poisoned);
+                    }
+                    if is_last {
+                        let d = decode_exp(&whole, p.fill, decode, noalloc);
+                        (Expect::Deliver { payload: whole, decode: d }, MState::Closed)
+                    } else {
+                        (
+                            Expect::Incomplete,
+                            MState::Open {
+                                id: *id,
+                                last_k: p.k,
+                                payload: whole,
+                            },
+                        )
+                    }
+                }
+                MState::Poisoned => (Expect::Unjudged("poisoned by a capacity overflow"), MState::Poisoned),
+                MState::Unknown => (Expect::Unjudged("after an invalidly numbered sentence"), MState::Unknown),
+                _ => (Expect::RejectSequence, st.clone()),
+            }
+        }
+    }
+}
+
+// ---------------------------------------------------------------------------------------------
+// history predicate (C06 as stated, no monitor)
+
+/// Abstract view of one history entry: the numbering read off the line and the real outcome.
+#[derive(Clone, Debug)]
+pub struct HEntry {
+    /// None if the line is not a well-formed, checksum-correct sentence (or is in zone U1)
+    pub num: Option<(u8, u8, Option<u8>)>,
+    pub payload: Vec<u8>,
+    /// real outcome: 'C' complete, 'I' incomplete, 'E' error, 'P' panic
+    pub out: char,
+    /// payload of the real Complete/Incomplete result
+    pub data: Vec<u8>,
+}
+
+/// Evaluate the C06 statement on a history. Returns `Err(description)` for the first entry that
+/// contradicts it.
+///
+/// For every validly numbered sentence i with n >= 2, k >= 2: it is accepted iff the previously
+/// accepted fragment (latest j < i with n_j >= 2 and outcome Complete/Incomplete) was fragment
+/// k-1 with the same id, was itself Incomplete (group not yet delivered), and belongs to a group
+/// opened by a fragment 1. A delivered payload is the in-order concatenation along that chain.
+pub fn history_predicate(h: &[HEntry], noalloc: bool) -> Result<(), (usize, String)> {
+    for i in 0..h.len() {
+        let (n, k, id) = match h[i].num {
+            Some(x) => x,
+            None => continue,
+        };
+        if kind_of(n, k) == Kind::Invalid || n < 2 || k < 2 {
+            continue;
+        }
+        // an invalidly numbered accepted sentence earlier makes the group state unjudged until the
+        // next fragment 1
+        let mut chain: Vec<usize> = Vec::new();
+        let mut j = i;
+        let mut want_k = k;
+        let mut want_id = id;
+        let mut legit = true;
+        let mut unjudged = false;
+        let mut ambiguous = false;
+        loop {
+            // previous accepted fragment before j
+            let prev = (0..j).rev().find(|&x| {
+                (h[x].out == 'C' || h[x].out == 'I')
+                    && match h[x].num {
+                        Some((nn, _, _)) => nn != 1,
+                        None => true, // accepted although not recognised (zone U1): state unknown
+                    }
+            });
+            let p = match prev {
+                None => {
+                    legit = false;
+                    break;
+                }
+                Some(p) => p,
+            };
+            // a final fragment whose DECODING failed in between closed (or may have closed) the group
+            if (p + 1..j).any(|x| h[x].data == b"\x00decode") {
+                ambiguous = true;
+            }
+            let (pn, pk, pid) = match h[p].num {
+                Some(x) => x,
+                None => {
+                    unjudged = true;
+                    break;
+                }
+            };
+            if kind_of(pn, pk) == Kind::Invalid {
+                unjudged = true;
+                break;
+            }
+            if h[p].out != 'I' || pk as u16 + 1 != want_k as u16 || pid != want_id {
+                legit = false;
+                break;
+            }
+            chain.push(p);
+            if pk == 1 {
+                break; // opened by a fragment 1
+            }
+            j = p;
+            want_k = pk;
+            want_id = pid;
+        }
+        if unjudged {
+            continue;
+        }
+        // capacity (no-allocator): a legit continuation may be rejected if the group would not fit
+        let mut expected: Vec<u8> = Vec::new();
+        if legit {
+            for &c in chain.iter().rev() {
+                expected.extend_from_slice(&h[c].payload);
+            }
+            expected.extend_from_slice(&h[i].payload);
+        }
+        // zone: intermediate rejected-by-capacity fragments poison the group
+        let accepted = h[i].out == 'C' || h[i].out == 'I';
+        if h[i].out == 'P' {
+            return Err((i, "panic".into()));
+        }
+        if !legit && accepted {
+            return Err((
+                i,
+                format!(
+                    "fragment {}/{} id {:?} accepted although it does not continue an open group",
+                    k, n, id
+                ),
+            ));
+        }
+        if legit && !accepted {
+            let over = noalloc && expected.len() > NOALLOC_SENTENCE_CAP;
+            // a decode failure on the final fragment is an error too; the caller passes decode=false
+            // letters or undecodable payloads knowingly: treat 'E' on a last fragment as acceptable
+            // only when decoding was requested (encoded by the caller in `data` == b"\x00decode").
+            let decode_fail = h[i].data == b"\x00decode";
+            if !over && !decode_fail && !ambiguous {
+                return Err((
+                    i,
+                    format!("fragment {}/{} id {:?} directly continues the open group but was rejected", k, n, id),
+                ));
+            }
+        }
+        if legit && h[i].out == 'C' && h[i].data != expected {
+            return Err((
+                i,
+                "delivered payload is not the in-order concatenation of fragments 1..k of one group".into(),
+            ));
+        }
+        if legit && h[i].out == 'C' && k != n {
+            return Err((i, "Complete before the last fragment".into()));
+        }
+        if legit && h[i].out == 'I' && k == n {
+            return Err((i, "last fragment yields Incomplete".into()));
+        }
+    }
+    Ok(())
+}
